@@ -327,7 +327,7 @@ def run_sdh(vl, vt, rho, f, radius, min_terms, term_factor, fams, label, all_sub
     return obj
 
 
-n_sdh = 24 if Q else 80
+n_sdh = 40 if Q else 120
 for case in [c for c in corpus if c["kind"] == "sdh"]:
     fams = [(f"corpus{i}", np.array(a["inc"], float).reshape(a.get("inc_shape", [-1])),
              np.array(a["out"], float).reshape(a.get("out_shape", [-1]))) for i, a in enumerate(case["angles"])]
@@ -501,7 +501,7 @@ def run_crack(vl, vt, rho, f, length, npw, fams, label, all_subsets):
     return obj, N
 
 
-n_crack = 16 if Q else 60
+n_crack = 30 if Q else 90
 crack_invalid = None
 crack_sizes = []
 for case in [c for c in corpus if c["kind"] == "crack_centre"]:
